@@ -256,7 +256,43 @@ class C06(ScanProperty):
             'at least once (by a transition or set_mode) and a token was delivered afterwards')
     N = {'quick': 400, 'thorough': 8000}
 
+    def gen_shared_vocabulary_case(self, rng):
+        """All modes tokenize with the SAME token types (single letters, runs), but their transition tables
+        differ (none, self, on some types only); the history interleaves next with set_mode after nearly
+        every token, over inputs with long runs of one token type: what happens after a token must depend
+        on the table of the mode the iterator is in NOW, not on anything remembered from earlier tokens."""
+        nm = rng.randint(2, 4)
+        letters = ['a', 'b', 'c'][:rng.randint(2, 3)]
+        vocab = [{'p': l if rng.random() < 0.7 else l + '+', 't': 1 + k} for k, l in enumerate(letters)]
+        modes = []
+        for m in range(nm):
+            pats = [dict(p) for p in vocab]
+            if rng.random() < 0.3:
+                rng.shuffle(pats)
+            types = sorted(p['t'] for p in pats)
+            tr = [[t, rng.choice([x for x in range(nm) if x != m] + [m])] for t in types if rng.random() < 0.45]
+            if m > 0 and rng.random() < 0.3:
+                tr = []
+            modes.append({'name': 'V%d' % m, 'patterns': pats, 'transitions': tr})
+        inp = ''.join(rng.choice(letters) * rng.randint(1, 3) for _ in range(rng.randint(2, 6)))[:14]
+        ops = []
+        for _ in range(rng.randint(4, 16)):
+            r = rng.random()
+            if r < 0.55:
+                ops.append(['next'])
+                if rng.random() < 0.7:
+                    ops.append(['current_mode'])      # the tokens are the same in every mode: observe the mode itself
+            elif r < 0.8:
+                ops.append(['set_mode', rng.randrange(nm)])
+            elif r < 0.9:
+                ops.append(['peek', rng.randint(1, 3)])
+            else:
+                ops.append(['current_mode'])
+        return {'modes': modes, 'input': inp, 'ops': ops}
+
     def gen_case(self, rng, i):
+        if i % 3 == 2:
+            return self.gen_shared_vocabulary_case(rng)
         nm = rng.randint(1, 4)
         modes, alpha = dense_config(rng, nm, la_prob=0.1, npat=(1, 6) if i % 3 == 0 else (1, 4))
         inp = gen.gen_small_input(rng, alpha, maxlen=14)
@@ -411,10 +447,17 @@ class C12(ScanProperty):
     """Isolation: interleavings of several iterators; every iterator's outputs are compared with the
     model run of its own projection."""
     ID = 'C12'
-    THEOREMS = [('Properties.C12', ['C12_isolation', 'C12_find_is_function', 'C12_fresh_iterator', 'C12_independent_of_past'])]
+    THEOREMS = [('Properties.C12', ['C12_isolation', 'C12_scratch_irrelevant', 'C12_calls_independent', 'C12_without_clearing_refuted',
+                                    'C12_source_premises', 'C12_fresh_iterator', 'C12_independent_of_past'])]
     COQ_TARGETS = ['Properties/C12.vo']
-    ASSUMPTIONS = ['partial: in the functional model iterators share nothing by construction; aliasing guarantees of Rust '
-                   '(clone per find_iter, Arc-shared immutable predicate) are observed by the correspondence, not proved']
+
+    def regen(self, out):
+        import c12_facts
+        c12_facts.regen(out)
+    ASSUMPTIONS = ['partial: in the functional model iterators share nothing by construction; the scratch vectors are modelled and '
+                   'proved irrelevant; that an iterator owns all its state (clone per find_iter, only the immutable registry and predicate '
+                   'shared, no interior mutability, fields = modelled state) is read off the source on every run (Gen/IsolationFacts.v) and '
+                   'observed by the correspondence; exclusion of aliasing by &mut is the type system\'s guarantee, not proved']
     RULE = ('worlds of 2..3 iterators over 1..2 inputs created from one Scanner or from two scanners obtained through the cache for '
             'equal configurations, with set_mode on the Scanner, partially consumed and dropped iterators, interleaved next / peek_n '
             '/ set_offset / set_mode / advance_to; each iterator\'s outputs are compared with the Coq model run on its own '
@@ -506,6 +549,30 @@ class C12(ScanProperty):
         inputs = [gen.gen_small_input(rng, alpha, maxlen=10, noise=0.15) for _ in range(rng.randint(1, 2))]
         cached = rng.random() < 0.4
         nsc = 2 if rng.random() < 0.4 else 1
+        if rng.random() < 0.3:
+            # engineered: the Scanner's own mode is moved around (to modes of every kind: with and without
+            # transitions) BEFORE iterators are created; every new iterator must start in mode 0 and switch
+            # exactly as a fresh scanner's iterator does; complete scans so that transitions are exercised
+            modes, alpha = dense_config(rng, rng.randint(2, 3), la_prob=0.1)
+            if not modes[0]['transitions']:
+                modes[0]['transitions'] = [[modes[0]['patterns'][0]['t'], rng.randrange(1, len(modes))]]
+            k = rng.randrange(1, len(modes))
+            if rng.random() < 0.6:
+                modes[k]['transitions'] = []
+            inputs = [gen.gen_small_input(rng, alpha, maxlen=10, noise=0.1) for _ in range(2)]
+            steps = []
+            nid = 0
+            for rnd in range(rng.randint(1, 3)):
+                steps.append(['scanner_set_mode', rng.randrange(nsc), k if rnd == 0 else rng.randrange(len(modes))])
+                sc_i = steps[-1][1]
+                ii = rng.randrange(len(inputs))
+                steps.append(['new', nid, sc_i, ii])
+                for _ in range(len(inputs[ii]) + 1):
+                    steps.append(['op', nid, 'next'])
+                    if rng.random() < 0.15:
+                        steps.append(['op', nid, 'current_mode'])
+                nid += 1
+            return {'modes': modes, 'inputs': inputs, 'cached': cached, 'nscanners': nsc, 'steps': steps}
         steps = []
         nit = rng.randint(2, 3)
         live = []
@@ -530,6 +597,14 @@ class C12(ScanProperty):
                     steps.append(['op', it, 'next'])
                 elif k < 0.7:
                     steps.append(['op', it, 'peek', rng.randint(0, 3)])
+                    if rng.random() < 0.5:
+                        # "unaffected by peeks": a peek directly followed by a change of what the next call must
+                        # compute (mode, position) and the next call itself
+                        if rng.random() < 0.7:
+                            steps.append(['op', it, 'set_mode', rng.randrange(len(modes))])
+                        else:
+                            steps.append(['op', it, 'set_offset', rng.choice(bs)])
+                        steps.append(['op', it, 'next'])
                 elif k < 0.8:
                     steps.append(['op', it, 'set_offset', rng.choice(bs)])
                 elif k < 0.88:
